@@ -14,7 +14,10 @@ void multiruncrypt_file(u8_t id, Aesmode &mode)
           __CPROVER_loop_invariant(WV_WORKER_INV && wv_pl.order_ok && wv_pl.entries < (1ull << 60) && WV_TAG_OF(mode) == __CPROVER_loop_entry(WV_TAG_OF(mode)))
           __CPROVER_loop_invariant(block != NULL ? (wv_c->state == READY && wv_b->now >= 1 && block == wv_b->b[wv_b->now - 1] && block == wv_pl.last_entry && wv_pl.runs + 1 == wv_pl.entries)
                                                  : (wv_c->state == INV && wv_pl.runs == wv_pl.entries)))
+  {
     mode.runcry(block);
+    WV_GHOST(wv_pl.runs++; wv_pl.order_ok = wv_pl.order_ok && block == wv_pl.last_entry; wv_pl.last_run = block; wv_pl.last_mode = mode;)
+  }
 };
 /*
 run_multicry:进行多线程并发
